@@ -461,3 +461,261 @@ Proof.
   assert (Hh' : e_holds s' a = true) by (apply e_holds_spec; auto).
   split; auto. eapply etcd_holder_owns_key; eauto.
 Qed.
+
+(* ================================================================= redis *)
+
+(* a registrant's belief ends only by its own stop: nothing ever notifies it *)
+Theorem redis_never_notified : forall s l s' i g,
+  sstep s l = Some s' -> nth_error (ss_rs s) i = Some g -> q_pc g = SActive -> l <> QStop i ->
+  exists g', nth_error (ss_rs s') i = Some g' /\ q_pc g' = SActive.
+Proof.
+  intros s l s' i g H Hi Hpc Hne.
+  assert (Hlen : (i < length (ss_rs s))%nat) by (apply nth_error_Some; congruence).
+  destruct l; unfold sstep in H; cbv zeta in H.
+  - inversion H; subst s'. exists g. split; auto. cbn [ss_rs]. rewrite nth_error_app1; auto.
+  - destruct (nth_error (ss_rs s) i0) as [g0|] eqn:Hg0; [|discriminate].
+    destruct (Nat.eq_dec i0 i) as [->|Hn].
+    + rewrite Hi in Hg0. inversion Hg0; subst g0. rewrite Hpc in H. discriminate.
+    + destruct (s_can_register (q_pc g0)); [|discriminate].
+      destruct (r_setnx ueq (ss_kv s) tt i0 (Some (q_ttl g0))) as [[|] kv'];
+        unfold swith in H; inversion H; subst s'; cbn [ss_rs];
+        exists g; rewrite nth_error_upd_other; auto.
+  - destruct (nth_error (ss_rs s) i0) as [g0|] eqn:Hg0; [|discriminate].
+    destruct (q_pc g0) eqn:Hp0; try discriminate.
+    unfold swith in H; inversion H; subst s'; cbn [ss_rs].
+    destruct (Nat.eq_dec i0 i) as [->|Hn].
+    + rewrite Hi in Hg0. inversion Hg0; subst g0. exists g. split; auto. apply nth_error_upd_same; auto.
+    + exists g. rewrite nth_error_upd_other; auto.
+  - destruct (nth_error (ss_rs s) i0) as [g0|] eqn:Hg0; [|discriminate].
+    destruct (q_pc g0) eqn:Hp0; try discriminate.
+    unfold swith in H; inversion H; subst s'; cbn [ss_rs].
+    destruct (Nat.eq_dec i0 i) as [->|Hn]; [congruence|].
+    exists g. rewrite nth_error_upd_other; auto.
+  - destruct (Z.ltb d 0); [discriminate|]. inversion H; subst s'. exists g. auto.
+Qed.
+
+Fixpoint no_stop (i : nat) (ls : list slabel) : Prop :=
+  match ls with
+  | [] => True
+  | l :: t => l <> QStop i /\ no_stop i t
+  end.
+
+Theorem redis_never_notified_run : forall ls s s' i g,
+  run sstep s ls = Some s' -> nth_error (ss_rs s) i = Some g -> q_pc g = SActive -> no_stop i ls ->
+  exists g', nth_error (ss_rs s') i = Some g' /\ q_pc g' = SActive.
+Proof.
+  induction ls as [|l t IH]; intros s s' i g Hr Hi Hpc Hn; simpl in Hr.
+  - inversion Hr; subst. eauto.
+  - destruct (sstep s l) as [s1|] eqn:E; [|discriminate]. destruct Hn as [Hn1 Hn2].
+    destruct (redis_never_notified _ _ _ _ _ E Hi Hpc Hn1) as [g1 [Hg1 Hp1]].
+    eapply IH; eauto.
+Qed.
+
+(* the witness: A (0) registers, its key lapses, B (1) registers; A's next tick
+   refreshes B's key and A is not notified; A's stop deletes B's registration *)
+Definition c26_prefix : list slabel :=
+  [QNew 300; QNew 300; QReg 0; QTime 301; QReg 1; QTime 100].
+
+Theorem redis_c26_refuted :
+  exists s0 s1 s2 a0 b0 a1 b2,
+    run sstep ssys_init c26_prefix = Some s0 /\
+    (* both believe they hold; the key was created by B *)
+    nth_error (ss_rs s0) 0 = Some a0 /\ nth_error (ss_rs s0) 1 = Some b0 /\
+    s_believes a0 = true /\ s_believes b0 = true /\ s_owner s0 = Some 1%nat /\
+    r_ttl ueq (ss_kv s0) tt = Some (Some 200) /\
+    (* A's tick refreshes the registration created by B, and A still believes *)
+    sstep s0 (QTick 0) = Some s1 /\
+    s_owner s1 = Some 1%nat /\ r_ttl ueq (ss_kv s1) tt = Some (Some 300) /\
+    nth_error (ss_rs s1) 0 = Some a1 /\ s_believes a1 = true /\
+    (* A's exit deletes the registration created by B, who still believes *)
+    sstep s1 (QStop 0) = Some s2 /\
+    s_owner s2 = None /\ nth_error (ss_rs s2) 1 = Some b2 /\ s_believes b2 = true.
+Proof.
+  do 7 eexists.
+  split; [vm_compute; reflexivity|].
+  split; [reflexivity|]. split; [reflexivity|].
+  split; [reflexivity|]. split; [reflexivity|]. split; [vm_compute; reflexivity|].
+  split; [vm_compute; reflexivity|].
+  split; [vm_compute; reflexivity|].
+  split; [vm_compute; reflexivity|]. split; [vm_compute; reflexivity|].
+  split; [reflexivity|]. split; [reflexivity|].
+  split; [vm_compute; reflexivity|].
+  split; [vm_compute; reflexivity|]. split; reflexivity.
+Qed.
+
+(* ---- the strongest true statement for redis: without lapses ---- *)
+(* steps that never let a registration lapse: positive heartbeats, and the clock
+   never advances past the expiry of an existing key *)
+Definition sstep_nl (s : ssys) (l : slabel) : option ssys :=
+  match l with
+  | QNew ttl => if Z.ltb 0 ttl then sstep s l else None
+  | QTime d =>
+      if Bool.eqb (r_exists ueq (r_tick (ss_kv s) d) tt) (r_exists ueq (ss_kv s) tt) then sstep s l else None
+  | _ => sstep s l
+  end.
+
+Definition skv1 (kv : sstore) : Prop :=
+  r_kvs kv = [] \/ exists x, r_kvs kv = [x] /\ rkv_live (r_now kv) x = true.
+
+Definition ssys_ok (s : ssys) : Prop :=
+  skv1 (ss_kv s) /\
+  (forall g, In g (ss_rs s) -> 0 < q_ttl g) /\
+  (forall i g, nth_error (ss_rs s) i = Some g -> q_pc g = SActive -> r_get ueq (ss_kv s) tt = Some i) /\
+  (forall i, r_get ueq (ss_kv s) tt = Some i -> exists g, nth_error (ss_rs s) i = Some g /\ q_pc g = SActive).
+
+Lemma s_remove_nil : forall kv : sstore, r_remove ueq kv tt = [].
+Proof. intros kv. unfold r_remove. apply all_false_filter_nil. intros; reflexivity. Qed.
+
+Lemma s_get_empty : forall kv : sstore, r_kvs kv = [] -> r_get ueq kv tt = None /\ r_exists ueq kv tt = false.
+Proof. intros kv H. unfold r_get, r_exists, r_find. rewrite H. auto. Qed.
+
+Lemma s_get_one : forall (kv : sstore) x, r_kvs kv = [x] -> rkv_live (r_now kv) x = true ->
+  r_get ueq kv tt = Some (rk_val x) /\ r_find ueq kv tt = Some x /\ r_exists ueq kv tt = true.
+Proof. intros kv x H L. unfold r_get, r_exists, r_find. rewrite H. simpl. rewrite L. auto. Qed.
+
+Lemma ssys_init_ok : ssys_ok ssys_init.
+Proof.
+  unfold ssys_ok, ssys_init; simpl. split; [left; reflexivity|]. split; [intros g []|]. split.
+  - intros i g H. destruct i; discriminate.
+  - intros i H. discriminate.
+Qed.
+
+Lemma sstep_nl_ok : forall s l s', ssys_ok s -> sstep_nl s l = Some s' -> ssys_ok s'.
+Proof.
+  intros s l s' Hok H. pose proof Hok as (K & T & P2 & P3).
+  destruct l; unfold sstep_nl, sstep in H; cbv zeta in H.
+  - (* QNew *)
+    destruct (Z.ltb 0 ttl) eqn:Ht; [|discriminate]. apply Z.ltb_lt in Ht.
+    inversion H; subst s'; clear H. unfold ssys_ok; cbn [ss_kv ss_rs]. split; auto. split; [|split].
+    + intros g Hg. apply in_app_or in Hg. destruct Hg as [Hg|[<-|[]]]; auto.
+    + intros i g Hi Hp. apply nth_error_app_new in Hi. destruct Hi as [Hi|[_ ->]]; [eauto|discriminate].
+    + intros i Hi. destruct (P3 i Hi) as [g [Hg Hp]]. exists g. split; auto.
+      rewrite nth_error_app1; auto. apply nth_error_Some. congruence.
+  - (* QReg *)
+    destruct (nth_error (ss_rs s) i) as [g|] eqn:Hg; [|discriminate].
+    assert (Hlen : (i < length (ss_rs s))%nat) by (apply nth_error_Some; congruence).
+    assert (Tg : 0 < q_ttl g) by (apply T; eapply nth_error_In; eauto).
+    destruct (s_can_register (q_pc g)) eqn:Hc; [|discriminate].
+    assert (Hna : q_pc g <> SActive) by (intro E; rewrite E in Hc; discriminate).
+    unfold r_setnx in H. destruct (r_exists ueq (ss_kv s) tt) eqn:Hex.
+    + (* exists: rejected *)
+      unfold swith in H; inversion H; subst s'; clear H. unfold ssys_ok; cbn [ss_kv ss_rs].
+      split; auto. split; [|split].
+      * intros y Hy. apply In_upd in Hy. destruct Hy as [->|Hy]; auto.
+      * intros j y Hj Hp. apply nth_error_upd in Hj. destruct Hj as [[_ ->]|[_ Hj]]; [discriminate|eauto].
+      * intros j Hj. destruct (P3 j Hj) as [y [Hy Hp]]. exists y. split; auto.
+        rewrite nth_error_upd_other; auto. intro E; subst j. congruence.
+    + (* absent: set *)
+      unfold swith in H; inversion H; subst s'; clear H.
+      assert (Hempty : r_kvs (ss_kv s) = []).
+      { destruct K as [E|[x [E Lx]]]; auto. destruct (s_get_one _ _ E Lx) as (_ & _ & X). congruence. }
+      assert (Hk : r_kvs (r_set ueq (ss_kv s) tt i (Some (q_ttl g))) = [mkRkv tt i (Some (r_now (ss_kv s) + q_ttl g))]
+                   /\ r_now (r_set ueq (ss_kv s) tt i (Some (q_ttl g))) = r_now (ss_kv s)).
+      { unfold r_set; simpl. rewrite s_remove_nil. apply Z.ltb_lt in Tg. rewrite Tg. simpl. auto. }
+      destruct Hk as [Hk Hn].
+      assert (Hl : rkv_live (r_now (ss_kv s)) (mkRkv tt i (Some (r_now (ss_kv s) + q_ttl g))) = true)
+        by (unfold rkv_live; simpl; apply Z.ltb_lt; lia).
+      destruct (s_get_one _ _ Hk) as (G & _ & _); [rewrite Hn; exact Hl|]. simpl in G.
+      unfold ssys_ok; cbn [ss_kv ss_rs]. split; [|split; [|split]].
+      * right. eexists. split; [exact Hk|]. rewrite Hn. exact Hl.
+      * intros y Hy. apply In_upd in Hy. destruct Hy as [->|Hy]; auto.
+      * intros j y Hj Hp. apply nth_error_upd in Hj. destruct Hj as [[<- ->]|[_ Hj]]; auto.
+        specialize (P2 j y Hj Hp). destruct (s_get_empty _ Hempty) as [X _]. congruence.
+      * intros j Hj. rewrite G in Hj. inversion Hj; subst j.
+        eexists. split; [apply nth_error_upd_same; auto|reflexivity].
+  - (* QTick *)
+    destruct (nth_error (ss_rs s) i) as [g|] eqn:Hg; [|discriminate].
+    assert (Hlen : (i < length (ss_rs s))%nat) by (apply nth_error_Some; congruence).
+    assert (Tg : 0 < q_ttl g) by (apply T; eapply nth_error_In; eauto).
+    destruct (q_pc g) eqn:Hp; try discriminate.
+    unfold swith in H; inversion H; subst s'; clear H.
+    specialize (P2 i g Hg Hp) as Gi.
+    destruct K as [E|[x [E Lx]]]; [destruct (s_get_empty _ E) as [X _]; congruence|].
+    destruct (s_get_one _ _ E Lx) as (G & F & X). assert (Ev : rk_val x = i) by congruence.
+    assert (Hk : r_kvs (snd (r_expire ueq (ss_kv s) tt (q_ttl g))) = [mkRkv tt (rk_val x) (Some (r_now (ss_kv s) + q_ttl g))]
+                 /\ r_now (snd (r_expire ueq (ss_kv s) tt (q_ttl g))) = r_now (ss_kv s)).
+    { unfold r_expire. rewrite F. assert (Z.leb (q_ttl g) 0 = false) as -> by (apply Z.leb_gt; lia).
+      simpl. rewrite s_remove_nil. auto. }
+    destruct Hk as [Hk Hn].
+    assert (Hl : rkv_live (r_now (ss_kv s)) (mkRkv tt (rk_val x) (Some (r_now (ss_kv s) + q_ttl g))) = true)
+      by (unfold rkv_live; simpl; apply Z.ltb_lt; lia).
+    destruct (s_get_one _ _ Hk) as (G' & _ & _); [rewrite Hn; exact Hl|]. simpl in G'.
+    assert (Hupd : upd i g (ss_rs s) = ss_rs s).
+    { clear -Hg. revert i Hg. induction (ss_rs s) as [|a t IH]; intros [|i] Hg; simpl in *; try discriminate; auto.
+      - inversion Hg; auto.
+      - f_equal. auto. }
+    unfold ssys_ok; cbn [ss_kv ss_rs]. rewrite Hupd. split; [|split; [|split]]; auto.
+    + right. eexists. split; [exact Hk|]. rewrite Hn. exact Hl.
+    + intros j y Hj Hpj. rewrite G'. specialize (P2 j y Hj Hpj). congruence.
+    + intros j Hj. rewrite G' in Hj. apply P3. congruence.
+  - (* QStop *)
+    destruct (nth_error (ss_rs s) i) as [g|] eqn:Hg; [|discriminate].
+    assert (Hlen : (i < length (ss_rs s))%nat) by (apply nth_error_Some; congruence).
+    destruct (q_pc g) eqn:Hp; try discriminate.
+    unfold swith in H; inversion H; subst s'; clear H.
+    specialize (P2 i g Hg Hp) as Gi.
+    assert (Hex : r_exists ueq (ss_kv s) tt = true).
+    { unfold r_get in Gi. unfold r_exists. destruct (r_find ueq (ss_kv s) tt); [auto|discriminate]. }
+    assert (Hk : r_kvs (snd (r_del ueq (ss_kv s) tt)) = []).
+    { unfold r_del. rewrite Hex. simpl. apply s_remove_nil. }
+    destruct (s_get_empty _ Hk) as [G' _].
+    unfold ssys_ok; cbn [ss_kv ss_rs]. split; [left; auto|]. split; [|split].
+    + intros y Hy. apply In_upd in Hy. destruct Hy as [->|Hy]; simpl; auto.
+      apply (T g). eapply nth_error_In; eauto.
+    + intros j y Hj Hpj. apply nth_error_upd in Hj. destruct Hj as [[_ ->]|[Hne Hj]]; [discriminate|].
+      specialize (P2 j y Hj Hpj). exfalso. apply Hne. congruence.
+    + intros j Hj. congruence.
+  - (* QTime *)
+    destruct (Bool.eqb (r_exists ueq (r_tick (ss_kv s) d) tt) (r_exists ueq (ss_kv s) tt)) eqn:Hpres; [|discriminate].
+    destruct (Z.ltb d 0) eqn:Hd; [discriminate|]. apply Z.ltb_ge in Hd.
+    inversion H; subst s'; clear H. apply eqb_prop in Hpres.
+    unfold ssys_ok; cbn [ss_kv ss_rs].
+    destruct K as [E|[x [E Lx]]].
+    + assert (Hk : r_kvs (r_tick (ss_kv s) d) = []) by (unfold r_tick; simpl; rewrite E; reflexivity).
+      destruct (s_get_empty _ Hk) as [G' _]. destruct (s_get_empty _ E) as [G _].
+      split; [left; auto|]. split; auto. split.
+      * intros j y Hj Hpj. specialize (P2 j y Hj Hpj). congruence.
+      * intros j Hj. congruence.
+    + destruct (s_get_one _ _ E Lx) as (G & F & X). rewrite X in Hpres.
+      assert (Lx' : rkv_live (r_now (ss_kv s) + d) x = true).
+      { destruct (rkv_live (r_now (ss_kv s) + d) x) eqn:L'; auto. exfalso.
+        unfold r_exists, r_find, r_tick in Hpres. cbn [r_kvs r_now] in Hpres. rewrite E in Hpres.
+        simpl in Hpres. rewrite L' in Hpres. simpl in Hpres. discriminate. }
+      assert (Hk : r_kvs (r_tick (ss_kv s) d) = [x] /\ r_now (r_tick (ss_kv s) d) = r_now (ss_kv s) + d).
+      { unfold r_tick; simpl. rewrite E. simpl. rewrite Lx'. auto. }
+      destruct Hk as [Hk Hn].
+      destruct (s_get_one _ _ Hk) as (G' & _ & _); [rewrite Hn; exact Lx'|].
+      split; [right; exists x; rewrite Hn; auto|]. split; auto. split.
+      * intros j y Hj Hpj. rewrite G'. specialize (P2 j y Hj Hpj). congruence.
+      * intros j Hj. apply P3. congruence.
+Qed.
+
+Theorem sreachable_nl_ok : forall s, reachable sstep_nl ssys_init s -> ssys_ok s.
+Proof. apply invariant_reachable; [exact ssys_init_ok|]. intros; eapply sstep_nl_ok; eauto. Qed.
+
+(* without lapses the redis registrations are exclusive and the owner of the key
+   is the one registrant that believes it holds *)
+Theorem redis_exclusive_without_lapse : forall s i j a b,
+  reachable sstep_nl ssys_init s ->
+  nth_error (ss_rs s) i = Some a -> nth_error (ss_rs s) j = Some b ->
+  s_believes a = true -> s_believes b = true -> i = j /\ s_owner s = Some i.
+Proof.
+  intros s i j a b Hr Ha Hb Pa Pb. apply sreachable_nl_ok in Hr. destruct Hr as (K & T & P2 & P3).
+  unfold s_believes in *.
+  destruct (q_pc a) eqn:Ea; try discriminate. destruct (q_pc b) eqn:Eb; try discriminate.
+  pose proof (P2 i a Ha Ea) as Gi. pose proof (P2 j b Hb Eb) as Gj.
+  split; [congruence|exact Gi].
+Qed.
+
+(* the hypotheses are satisfiable: a reachable etcd state in which A's lease has
+   been revoked (A still believes, not yet ticked) and B holds the key *)
+Example etcd_c26_hyps_satisfiable :
+  exists s a b, run estep esys_init
+      [GNew 1; GNew 1; GGrant 0; GPut 0; GLapse 1; GGrant 1; GPut 1] = Some s /\
+    nth_error (es_rs s) 0 = Some a /\ nth_error (es_rs s) 1 = Some b /\
+    g_pc a = EActive /\ dead (es_kv s) (g_lease a) /\ e_holds s b = true /\ e_holds s a = false.
+Proof.
+  do 3 eexists. split; [vm_compute; reflexivity|].
+  split; [reflexivity|]. split; [reflexivity|]. split; [reflexivity|].
+  split; [vm_compute; reflexivity|]. split; vm_compute; reflexivity.
+Qed.
